@@ -1,0 +1,24 @@
+//go:build verif
+
+// Contracts for govc (contract-based deductive verification, see /verif/DESIGN.md).
+// This file contains comments only; it is compiled only with -tags=verif and adds no code.
+
+package token
+
+//@ package token
+//@
+//@ # C10: the token map numbers the terminals in list order; lookups are mutually inverse when the list has no duplicates
+//@ func NewTokenMap
+//@   prop C10
+//@   ensures [fresh] result != nil && result >= old(alloc()) && result.IdMap != nil
+//@   ensures [typemap] len(result.TypeMap) == len(symbols) && all(i, 0, len(symbols), result.TypeMap[i] == symbols[i])
+//@   ensures [idmap-dom] all(i, 0, len(symbols), has(result.IdMap, symbols[i])) && forallS(s, imp(has(result.IdMap, s), some(i, 0, len(symbols), symbols[i] == s)))
+//@   ensures [idmap-val] forallS(s, imp(has(result.IdMap, s), 0 <= result.IdMap[s] && result.IdMap[s] < len(symbols) && symbols[result.IdMap[s]] == s))
+//@   ensures [inverse] imp(all(a, 0, len(symbols), all(b, a+1, len(symbols), symbols[a] != symbols[b])), all(i, 0, len(symbols), result.IdMap[symbols[i]] == i))
+//@   assigns nothing
+//@   loop 1
+//@     invariant [tm] tm != nil && tm >= old(alloc()) && tm.IdMap != nil && tm.IdMap >= old(alloc()) && len(tm.TypeMap) == len(symbols) && arr(tm.TypeMap) >= old(alloc())
+//@     invariant [typemap] all(i, 0, range_i1, tm.TypeMap[i] == symbols[i])
+//@     invariant [idmap-dom] all(i, 0, range_i1, has(tm.IdMap, symbols[i])) && forallS(s, imp(has(tm.IdMap, s), some(i, 0, range_i1, symbols[i] == s)))
+//@     invariant [idmap-val] forallS(s, imp(has(tm.IdMap, s), 0 <= tm.IdMap[s] && tm.IdMap[s] < range_i1 && symbols[tm.IdMap[s]] == s))
+//@     invariant [inverse] imp(all(a, 0, len(symbols), all(b, a+1, len(symbols), symbols[a] != symbols[b])), all(i, 0, range_i1, tm.IdMap[symbols[i]] == i))
